@@ -1433,10 +1433,7 @@ func (m *Machine) Eval(source string, fn func(), ctx context.Context) bool {
 		canceled.Store(true)
 		m.log(LogOps, "[eval:timeout] %s", source)
 		err := fmt.Errorf("%w: eval:%s", ErrEvalTimeout, source)
-		select {
-		case m.errInternal <- err:
-		default:
-		}
+		m.sendErrInternal(err)
 		return false
 
 	case <-m.ctx.Done():
@@ -1453,6 +1450,18 @@ func (m *Machine) Eval(source string, fn func(), ctx context.Context) bool {
 
 	m.log(LogEverything, "[eval:end] %s", source)
 	return true
+}
+
+// sendErrInternal passes an error to the ErrInternal channel, unless it's full
+// or already closed by the disposal.
+func (m *Machine) sendErrInternal(err error) {
+	defer func() {
+		_ = recover()
+	}()
+	select {
+	case m.errInternal <- err:
+	default:
+	}
 }
 
 func (m *Machine) isNestedEval(source string) bool {
@@ -2406,10 +2415,7 @@ func (m *Machine) processHandlers(e *Event) (Result, bool) {
 			m.log(LogOps, "[cancel] (%s) by timeout", j(tx.TargetStates()))
 			m.log(LogDecisions, "[handler:timeout]: %s from %s", methodName, h.id)
 			err := fmt.Errorf("%w: %s from %s", ErrHandlerTimeout, methodName, h.id)
-			select {
-			case m.errInternal <- err:
-			default:
-			}
+			m.sendErrInternal(err)
 			timeout = true
 
 			// wait for the handler to exit within HandlerDeadline
